@@ -243,10 +243,10 @@ func Decrypt(d *DRR, lookup Lookup, masterKey []byte) ([]byte, error) {
 
 // Hierarchy is a reference-generated key chain.
 type Hierarchy struct {
-	SKID, IKID         string
+	SKID, IKID           string
 	SKCreated, IKCreated int64
-	SK, IK             []byte
-	SKRecord, IKRecord *KeyRecord
+	SK, IK               []byte
+	SKRecord, IKRecord   *KeyRecord
 }
 
 // NewHierarchy creates a fresh SK and IK wrapped per the documentation.
